@@ -73,11 +73,13 @@ def main(args=None) -> int:
             return 0
         case "test":
             original = _read_input(args.file)
-            source = parse(original)
-            if source.contains_error:
-                print("Fail")
-                return 1
-            rebuild = source.rebuild()
+            try:
+                source = parse(original)
+                rebuild = None if source.contains_error else source.rebuild()
+            except Exception:
+                # Valid syntax the library cannot represent (a URI literal, for
+                # instance) does not round-trip either: that is a verdict, not a crash.
+                rebuild = None
 
             if original == rebuild:
                 print("OK")
